@@ -42,22 +42,28 @@ CARRIED = {
     # CharacteristicCurve receives are the C09 `curve_callback` contract; "for elastic materials the final state is
     # independent of how the load path is subdivided" needs the built-in incremental laws to add exactly the stress of the
     # strain INCREMENT to the stored stress (C03 `small_strain`: elastic update, elastic step keeps the plastic state)
-    "C15": [("C01", "solidbody", _stateful), ("C03", "small_strain_user", None), ("C03", "small_strain", None), ("C03", "composite", None), ("C09", "curve_callback", None), ("C14", "loads", lambda cfg: cfg.get("item") == "pointload"), ("C12", "handcoded", _ogden_roxburgh_pair)],
+    "C15": [("C01", "solidbody", _stateful), ("C03", "small_strain_user", None), ("C03", "small_strain", None), ("C03", "composite", None), ("C09", "curve_callback", None), ("C14", "loads", lambda cfg: cfg.get("item") == "pointload"), ("C12", "handcoded", _ogden_roxburgh_pair), ("C07", "fun_items_jac_items", None)],
     # solid bodies on mixed u/p/J fields are verified against StubMixedMaterial (blocks == mixed derivatives of the
     # three-field functional), follower loads against StubAreaChange (cofactor and its derivative)
     # ... and the block placement of mixed-field matrices (upper-triangle storage / full block lists) is C02 `mixed_blocks`
+    # ... the sum over items with their multipliers (fun_items / jac_items, in the anchor file tools/_newton.py) is C07; the
+    # update() of external-load items (PointLoad, SolidBodyForce / Gravity: constant vectors, zero matrices) is C14 `loads`
     # ... the uniform-grid fast path of the assembly (cell-constant integrands broadcast to all cells) is C10 `uniform_region`
-    "C01": [("C03", "mixed", None), ("C03", "kinematics", None), ("C02", "mixed_blocks", None), ("C10", "uniform_region", None)],
+    "C01": [("C03", "mixed", None), ("C03", "kinematics", None), ("C02", "mixed_blocks", None), ("C10", "uniform_region", None), ("C07", "fun_items_jac_items", None), ("C14", "loads", None)],
     # regions evaluate the element tables at the points of their default rules: the element identities are C04, the rules
     # (incl. that inv() leaves the shared default scheme alone) C05; the padded plane-strain hessian is C10 `planestrain_hess`
-    "C06": [("C05", "scheme", lambda cfg: cfg.get("scheme") in ("GaussLegendre", "Triangle", "Tetrahedron") and cfg.get("tier") != "thorough"), ("C10", "planestrain_hess", None)],
+    "C06": [("C05", "scheme", lambda cfg: cfg.get("tier") != "thorough"), ("C10", "planestrain_hess", None), ("C04", "element", lambda cfg: cfg.get("tier") != "thorough")],
     # condensed vs explicit three-field: the explicit side is the real NearlyIncompressible / ThreeFieldVariation law
     # whose blocks are the C03 `mixed` contract
-    "C10": [("C03", "mixed", None)],
+    # ... the condensed body's matrix (anchor file _solidbody_incompressible.py) is C01 `nearly_incompressible`; the commit of
+    # its (p, J) state on convergence is Results.update_statevars (C07)
+    "C10": [("C03", "mixed", None), ("C01", "nearly_incompressible", None), ("C07", "update_statevars", None)],
     # pressure resultants are stated against StubAreaChange
     # ... and the zero total moment of the internal forces is the proved first-moment identity plus Kirchhoff symmetry
     # P F^T = F P^T of the constitutive law: the C11 contracts of the Lagrange wrappers / AD wrappers
-    "C14": [("C03", "kinematics", None), ("C11", "lagrange", None), ("C11", "wrapper", None), ("C11", "handcoded", lambda cfg: cfg.get("part") == "balance"), ("C04", "element", lambda cfg: cfg.get("tier") != "thorough"), ("C13", "cell", lambda cfg: cfg.get("clause") in ("closure", "faces"))],
+    # ... "all selections of loaded faces": the faces a point mask selects are the C13 `mask` contract; body-force sum and
+    # total mass are exact only if the rule in use is (all rules a region may be given: C05 `scheme`, 3 s)
+    "C14": [("C03", "kinematics", None), ("C11", "lagrange", None), ("C11", "wrapper", None), ("C11", "handcoded", lambda cfg: cfg.get("part") == "balance"), ("C04", "element", lambda cfg: cfg.get("tier") != "thorough"), ("C13", "cell", lambda cfg: cfg.get("clause") in ("closure", "faces")), ("C13", "mask", None), ("C05", "scheme", lambda cfg: cfg.get("tier") != "thorough")],
     # hand-coded vs differentiated versions are compared on the plain call; the hand-coded models' out= buffer variants
     # (what a solid body actually calls) are the C03 `handcoded` contract
     "C12": [("C03", "handcoded", None)],
@@ -69,14 +75,26 @@ CARRIED = {
     # offset / npoints) comes from the mesh bookkeeping, under contract in C16
     # ... and the (row field, column field) placement of a full list of blocks is C02 `mixed_blocks`
     "C08": [("C16", "update_bookkeeping", None), ("C16", "structure", lambda cfg: cfg.get("op") == "dual"), ("C02", "mixed_blocks", None)],
+    # duplicate-point merging of the meshes of a container (one shared merged points array, cells renumbered consistently)
+    # is stated with the container's file round trip in C20
+    "C16": [("C20", "MeshContainer", None)],
+    # area vectors, normals and dA are evaluated at the points of a boundary rule -- a (dim-1)-rule placed on the face
+    # r_last = -1 of the rotated cell: the C05 `scheme` contracts of the two boundary rules
+    "C13": [("C05", "scheme", lambda cfg: "Boundary" in str(cfg.get("scheme"))), ("C04", "element", lambda cfg: cfg.get("tier") != "thorough")],
     # averaging at the points divides by mesh.cells_per_point (C16 bookkeeping)
-    "C19": [("C16", "update_bookkeeping", None)],
+    # ... projection / extrapolation reproduce fields of the element's polynomial space: the element identities (C04, 3 s)
+    "C19": [("C16", "update_bookkeeping", None), ("C04", "element", lambda cfg: cfg.get("tier") != "thorough")],
     # the free unknowns of a modal analysis are those of dof.partition over the job's boundaries: the selection a Boundary
     # makes (all fx / fy / fz / mode / skip / mask options) is the C08 `boundary` contract
+    # ... "exactly six zero-frequency modes" needs a stiffness without spurious zero-energy modes: the default rule of every region
+    # template integrates the stiffness integrand of its element exactly (C09 `rule_exactness`, 3 s)
     # ... the prescribed unknowns of cell-less points are C08 `dof0-dof1`; rigid modes carry no strain because the shape
     # function gradients sum to zero (C04 element identities)
-    "C18": [("C08", "boundary", None), ("C08", "dof0-dof1", None), ("C04", "element", lambda cfg: cfg.get("tier") != "thorough")],
+    "C18": [("C08", "boundary", None), ("C08", "dof0-dof1", None), ("C08", "apply", None), ("C04", "element", lambda cfg: cfg.get("tier") != "thorough"), ("C09", "rule_exactness", None)],
     # ... and "all hyperelastic materials": the analytic stress a curve is compared with is the model's documented one --
     # the model functions of the two AD back ends agree (C12 `backends`) and have the documented initial moduli (`moduli`)
-    "C09": [("C15", "Job.evaluate", None), ("C15", "Step.generate", None), ("C08", "loadcase", None), ("C08", "apply", None), ("C12", "backends", lambda cfg: cfg.get("tier") != "thorough" and cfg.get("model") != "native-lagrange"), ("C12", "moduli", lambda cfg: cfg.get("tier") != "thorough")],
+    # ... the reaction force of the curve is tools.force over the moved boundary, the curve data tools.curve (C19); the
+    # convergence test and the Newton driver the job runs (anchor file tools/_newton.py) are C07 `check` / `newtonrhapson`
+    # ... patch tests on "any" cell of a family rest on gradient == D(function) and the partition of unity of the element (C04)
+    "C09": [("C15", "Job.evaluate", None), ("C15", "Step.generate", None), ("C08", "loadcase", None), ("C08", "apply", None), ("C12", "backends", lambda cfg: cfg.get("tier") != "thorough" and cfg.get("model") != "native-lagrange"), ("C12", "moduli", lambda cfg: cfg.get("tier") != "thorough"), ("C19", "force_moment", None), ("C19", "curve", None), ("C07", "check", None), ("C07", "newtonrhapson", None), ("C04", "element", lambda cfg: cfg.get("tier") != "thorough")],
 }
